@@ -18,7 +18,12 @@ package main
 // A branch on a tracked boolean prunes the states that disagree. Calls are
 // followed through static callees, closures bound to parameters (summarised
 // per binding), func-typed fields and callbacks of sort/slices. State sets are
-// 256-bit sets, so G*3^digits <= 256.
+// 1024-bit sets with a per-function encoding (only the digits a function
+// needs), so G*3^digits <= 1024; at most five tracked facts per function.
+// Enum-like variables (an integer phi fed by constants and helper results,
+// compared with constants) are tracked as facts "x == K". A branch that depends
+// on a helper result and is not interpreted marks the function Imprecise: rules
+// then answer UNDECIDED instead of VIOLATION.
 
 import (
 	"fmt"
@@ -30,7 +35,7 @@ import (
 	"golang.org/x/tools/go/ssa"
 )
 
-const c05Cap = 256
+const c05Cap = 1024
 
 type c05Bits [c05Cap / 64]uint64
 
@@ -89,7 +94,8 @@ type c05Flow struct {
 	sum     map[string][]c05Exit
 	active  map[string]bool
 	entry   map[*ssa.Function]uint64
-	at      map[ssa.Instruction]c05Bits
+	at      map[ssa.Instruction]uint64 // global states seen before each instruction
+	eqAtoms map[*ssa.Function][]c05EqAtom
 	tracked map[*ssa.Function][]ssa.Value
 	cells   map[*ssa.Function]*ssa.Alloc
 	// Imprecise: functions with more tracked booleans than the engine can follow.
@@ -112,7 +118,7 @@ func (f *c05Flow) kmax() int {
 	for i := 0; i < f.cellDigits(); i++ {
 		l *= 3
 	}
-	for k < 3 && f.G*l*3 <= c05Cap {
+	for k < 5 && f.G*l*3 <= c05Cap {
 		k++
 		l *= 3
 	}
@@ -171,7 +177,8 @@ func (f *c05Flow) init() {
 	f.sum = map[string][]c05Exit{}
 	f.active = map[string]bool{}
 	f.entry = map[*ssa.Function]uint64{}
-	f.at = map[ssa.Instruction]c05Bits{}
+	f.at = map[ssa.Instruction]uint64{}
+	f.eqAtoms = map[*ssa.Function][]c05EqAtom{}
 	f.tracked = map[*ssa.Function][]ssa.Value{}
 	f.cells = map[*ssa.Function]*ssa.Alloc{}
 	f.Imprecise = map[*ssa.Function]bool{}
@@ -458,8 +465,172 @@ func (f *c05Flow) trackedOf(fn *ssa.Function) []ssa.Value {
 		f.Imprecise[fn] = true
 		out = out[:maxK]
 	}
+	// enum-like VARIABLES: an integer phi fed by constants and by results of
+	// same-package helpers, compared with constants (step := stepWait; for step ==
+	// stepWait { now, step = c.serve(...) }; if step == stepExit { return })
+	var eqs []c05EqAtom
+	var addEq func(x ssa.Value, k string, depth int)
+	addEq = func(x ssa.Value, k string, depth int) {
+		x = c05CanonBool(x)
+		for _, e := range eqs {
+			if e.x == x && e.k == k {
+				return
+			}
+		}
+		switch y := x.(type) {
+		case *ssa.Phi:
+			if depth > 4 {
+				return
+			}
+			eqs = append(eqs, c05EqAtom{x, k})
+			for _, ed := range y.Edges {
+				if _, isC := ed.(*ssa.Const); !isC {
+					addEq(ed, k, depth+1)
+				}
+			}
+		case *ssa.Extract:
+			if call, ok := y.Tuple.(*ssa.Call); ok && depth > 0 {
+				for _, h := range f.a.calleesOf(call) {
+					if f.funcs[h] {
+						eqs = append(eqs, c05EqAtom{x, k})
+						return
+					}
+				}
+			}
+		case *ssa.Call:
+			if depth > 0 {
+				for _, h := range f.a.calleesOf(y) {
+					if f.funcs[h] {
+						eqs = append(eqs, c05EqAtom{x, k})
+						return
+					}
+				}
+			}
+		}
+	}
+	allInstrs(fn, func(in ssa.Instruction) {
+		ifi, ok := in.(*ssa.If)
+		if !ok {
+			return
+		}
+		for _, at := range append([]c05Atom{{ifi.Cond, true}}, c05ExpandCond(ifi.Cond, true, 0)...) {
+			v, _ := c05CondValue(at.v)
+			if x, k, _, ok := c05IntCompare(v); ok {
+				if _, isPhi := c05CanonBool(x).(*ssa.Phi); isPhi {
+					addEq(x, k, 0)
+				}
+			}
+		}
+	})
+	if len(out)+len(eqs) > maxK {
+		f.Imprecise[fn] = true
+		n := maxK - len(out)
+		if n < 0 {
+			n = 0
+		}
+		eqs = eqs[:n]
+	}
+	// honesty: a branch whose condition depends on the result of a same-package
+	// helper (directly, through a variable or a comparison) and that the engine
+	// does NOT interpret means paths are not pruned exactly; a violation found
+	// through such a function is reported as UNDECIDED by the rules
+	interpreted := func(v ssa.Value) bool {
+		v = c05CanonBool(v)
+		for _, t := range out {
+			if t == v {
+				return true
+			}
+		}
+		if x, k, _, ok := c05IntCompare(v); ok {
+			x = c05CanonBool(x)
+			for _, e := range eqs {
+				if e.x == x && e.k == k {
+					return true
+				}
+			}
+		}
+		return false
+	}
+	var dependsOnHelper func(v ssa.Value, depth int) bool
+	dependsOnHelper = func(v ssa.Value, depth int) bool {
+		if depth > 4 {
+			return false
+		}
+		switch x := v.(type) {
+		case *ssa.Call:
+			for _, h := range f.a.calleesOf(x) {
+				if f.funcs[h] {
+					return true
+				}
+			}
+		case *ssa.Extract:
+			if call, ok := x.Tuple.(*ssa.Call); ok {
+				return dependsOnHelper(call, depth+1)
+			}
+		case *ssa.Phi:
+			for _, ed := range x.Edges {
+				if ed != v && dependsOnHelper(ed, depth+1) {
+					return true
+				}
+			}
+		case *ssa.BinOp:
+			return dependsOnHelper(x.X, depth+1) || dependsOnHelper(x.Y, depth+1)
+		case *ssa.UnOp:
+			if x.Op == token.NOT {
+				return dependsOnHelper(x.X, depth+1)
+			}
+		}
+		return false
+	}
+	allInstrs(fn, func(in ssa.Instruction) {
+		ifi, ok := in.(*ssa.If)
+		if !ok {
+			return
+		}
+		for _, at := range append([]c05Atom{{ifi.Cond, true}}, c05ExpandCond(ifi.Cond, true, 0)...) {
+			v, _ := c05CondValue(at.v)
+			if !interpreted(v) && dependsOnHelper(v, 0) {
+				f.Imprecise[fn] = true
+			}
+		}
+	})
+	f.eqAtoms[fn] = eqs
 	f.tracked[fn] = out
 	return out
+}
+
+// ImpreciseAmong: one of fns branches on something the engine does not follow exactly.
+func (f *c05Flow) ImpreciseAmong(fns map[*ssa.Function]bool) *ssa.Function {
+	var found *ssa.Function
+	for fn := range fns {
+		if f.Imprecise[fn] && (found == nil || fn.Name() < found.Name()) {
+			found = fn
+		}
+	}
+	return found
+}
+
+// c05EqAtom: the tracked fact "x == k" for an enum-like value x.
+type c05EqAtom struct {
+	x ssa.Value
+	k string
+}
+
+// c05IntCompare: v is `x == K` / `x != K` with a non-boolean, non-nil constant K.
+func c05IntCompare(v ssa.Value) (x ssa.Value, k string, neq bool, ok bool) {
+	b, isB := v.(*ssa.BinOp)
+	if !isB || (b.Op != token.EQL && b.Op != token.NEQ) {
+		return nil, "", false, false
+	}
+	x, kv := b.X, b.Y
+	if _, isC := x.(*ssa.Const); isC {
+		x, kv = kv, x
+	}
+	kc, isC := kv.(*ssa.Const)
+	if !isC || kc.Value == nil || kc.Value.Kind() == constant.Bool {
+		return nil, "", false, false
+	}
+	return x, kc.Value.ExactString(), b.Op == token.NEQ, true
 }
 
 // c05BoolResult: index of the single boolean result of fn, or -1.
@@ -579,7 +750,20 @@ func (f *c05Flow) runFn(fn *ssa.Function, entryG uint64, cdIn int, record bool, 
 	tr := f.trackedOf(fn)
 	cell := f.cellOf(fn, bind)
 	off := f.cellDigits()
-	L := f.L()
+	eqs := f.eqAtoms[fn]
+	L := 1
+	for i := 0; i < off+len(tr)+len(eqs); i++ {
+		L *= 3 // per-function encoding: only the digits this function needs
+	}
+	eqPos := func(x ssa.Value, k string) int {
+		x = c05CanonBool(x)
+		for i, e := range eqs {
+			if e.x == x && e.k == k {
+				return off + len(tr) + i
+			}
+		}
+		return -1
+	}
 	idx := func(v ssa.Value) int {
 		if cell != nil {
 			if c := c05CellLoad(v); c != nil && c == cell {
@@ -785,6 +969,30 @@ func (f *c05Flow) runFn(fn *ssa.Function, entryG uint64, cdIn int, record bool, 
 							if rk >= off {
 								l2 = c05SetDigit(l2, rk, ex.rt)
 							}
+							if call, isC := in.(*ssa.Call); isC {
+								for i, e := range eqs {
+									ri := -1
+									if e.x == ssa.Value(call) {
+										ri = 0
+									} else if ex2, ok := e.x.(*ssa.Extract); ok && ex2.Tuple == ssa.Value(call) {
+										ri = ex2.Index
+									}
+									if ri < 0 {
+										continue
+									}
+									d := 0
+									if len(targets) == 1 {
+										if val, ok := c05RcLookup(ex.rc, ri); ok {
+											if val == e.k {
+												d = 1
+											} else {
+												d = 2
+											}
+										}
+									}
+									l2 = c05SetDigit(l2, off+len(tr)+i, d)
+								}
+							}
 							for _, cm := range cmps {
 								if ck := idx(cm.b); ck >= off {
 									d := 0
@@ -828,6 +1036,11 @@ func (f *c05Flow) runFn(fn *ssa.Function, entryG uint64, cdIn int, record bool, 
 					}
 					done[v] = true
 					k := idx(v)
+					if x, kk, neq, isCmp := c05IntCompare(v); isCmp && k < 0 {
+						if k = eqPos(x, kk); k >= 0 && neq {
+							pol = !pol
+						}
+					}
 					if k < 0 {
 						continue
 					}
@@ -901,6 +1114,30 @@ func (f *c05Flow) runFn(fn *ssa.Function, entryG uint64, cdIn int, record bool, 
 				asgs = append(asgs, a1)
 			}
 		}
+		if pi >= 0 {
+			for i, e := range eqs {
+				phi, ok := e.x.(*ssa.Phi)
+				if !ok || phi.Block() != to || pi >= len(phi.Edges) {
+					continue
+				}
+				a1 := asg{k: off + len(tr) + i, src: -1}
+				switch ev := phi.Edges[pi].(type) {
+				case *ssa.Const:
+					if ev.Value != nil {
+						if ev.Value.ExactString() == e.k {
+							a1.d = 1
+						} else {
+							a1.d = 2
+						}
+					}
+				default:
+					if sp := eqPos(ev, e.k); sp >= 0 {
+						a1.src = sp
+					}
+				}
+				asgs = append(asgs, a1)
+			}
+		}
 		if f.EdgeG == nil && len(asgs) == 0 {
 			return st
 		}
@@ -929,7 +1166,7 @@ func (f *c05Flow) runFn(fn *ssa.Function, entryG uint64, cdIn int, record bool, 
 		allInstrs(fn, func(in ssa.Instruction) {
 			if st, ok := mf.before[in]; ok {
 				cur := f.at[in]
-				cur.or(st)
+				each(st, func(g, l int) { cur |= 1 << uint(g) })
 				f.at[in] = cur
 			}
 		})
@@ -1083,18 +1320,16 @@ func (f *c05Flow) Run(roots map[*ssa.Function]int) {
 	}
 }
 
-// At: states before instruction in (empty if unreachable from the roots).
-func (f *c05Flow) At(in ssa.Instruction) c05Bits { return f.at[in] }
+// At: the global states before instruction in, as a bit set over g (0 if
+// unreachable from the roots).
+func (f *c05Flow) At(in ssa.Instruction) uint64 { return f.at[in] }
 
-// Globals: the set of global states among st.
-func (f *c05Flow) Globals(st c05Bits) []int {
+// Globals: the global states in the set st.
+func (f *c05Flow) Globals(st uint64) []int {
 	var out []int
-	seen := map[int]bool{}
-	L := f.L()
-	for s := 0; s < f.G*L; s++ {
-		if st.has(s) && !seen[s/L] {
-			seen[s/L] = true
-			out = append(out, s/L)
+	for g := 0; g < f.G; g++ {
+		if st&(1<<uint(g)) != 0 {
+			out = append(out, g)
 		}
 	}
 	return out
